@@ -55,6 +55,30 @@ CHECKS = {
             "Lean 4 theorems about the act/sleep loops on a virtual clock (wake times, count per span, LinearController drift bound from the C08 step bound, Buffer quiet/flush) + differential correspondence of every shipped service under trio's MockClock with the observed event order passed to the model + oracle on the recorded timeline",
             "Partial: the trio clock contract (a sleep of d ends d later, bodies take no virtual time) is an assumption. Under it: first step immediately then exactly one per interval forever (FactoryPool: after each interval), demand drift of a LinearController <= rate x (span + interval), a Buffer forwards nothing between boundaries and at each boundary the target gets the last written value — Lean theorems; tied to the run() methods of linear/relative_supply/stepwise/switch/buffer/factory by MockClock runs whose event timelines (times as exact rationals) are compared with the model.",
             "Trusted: Lean kernel + standard axioms; model; trio 0.34 MockClock semantics (assumed); real-time scheduling latency is not modelled."),
+    "C01": ("§7.3",
+            'Lean 4 invariant proofs over one labelled transition system of the MetaRunner/ServiceRunner protocol (induction over arbitrary event sequences: every number of payloads, every interleaving the guards admit) + correspondence by replaying the event logs of gated scenarios run against the real runtime on the model (subset-construction trace acceptor) + outcome oracle',
+            'failure_never_returns, cause_sound, graceful_only, latch_first_wins, quiet_records are theorems over every reachable state of the runtime LTS; the LTS is tied to daemon/runners/*.py on every run by executing generated failure scenarios (flavour x failure kind x registration x bystanders x simultaneous failures) in worker processes and checking that the model accepts the logged traces and that the outcome is the one the property demands.',
+            'Partial: the semantics of asyncio, trio and threading enters the LTS as the enabling conditions of its events (assumed, DESIGN §7.1); real thread interleavings inside the frameworks and wall-clock bounds are sampled by the scenario engine, not proved. Trusted: Lean kernel + standard axioms; the LTS Model/Runtime/LTS.lean (tied by trace acceptance); the scenario engine and its mapping of log entries to model events.'),
+    "C02": ("§7.4",
+            'Lean 4 invariant proofs over one labelled transition system of the MetaRunner/ServiceRunner protocol (induction over arbitrary event sequences: every number of payloads, every interleaving the guards admit) + correspondence by replaying the event logs of gated scenarios run against the real runtime on the model (subset-construction trace acceptor) + outcome oracle',
+            'ended_all_unwound, no_step_after_end, cancel_through_framework, threads_dont_block, closing_uniform are theorems over the runtime LTS; tied to the code by termination scenarios (failure / SIGINT / shutdown from outside and from a thread payload, coroutine payloads with synchronous and shielded cleanup, blocked threads) whose per-payload event logs are replayed on the model and compared with the instant accept() ended.',
+            'Partial: the semantics of asyncio, trio and threading enters the LTS as the enabling conditions of its events (assumed, DESIGN §7.1); real thread interleavings inside the frameworks and wall-clock bounds are sampled by the scenario engine, not proved. Trusted: Lean kernel + standard axioms; the LTS Model/Runtime/LTS.lean (tied by trace acceptance); the scenario engine and its mapping of log entries to model events.'),
+    "C03": ("§7.5",
+            'Lean 4 invariant proofs over one labelled transition system of the MetaRunner/ServiceRunner protocol (induction over arbitrary event sequences: every number of payloads, every interleaving the guards admit) + correspondence by replaying the event logs of gated scenarios run against the real runtime on the model (subset-construction trace acceptor) + outcome oracle',
+            'start_le_one, started_iff, start_flavour, adopt_total, flush_all, sweep_once, discard_only_closing are theorems over the runtime LTS; tied to the code by scenarios with up to 18 payloads and services, arguments, every submitting context, several polling cycles and adoption racing a shutdown.',
+            'Partial: the semantics of asyncio, trio and threading enters the LTS as the enabling conditions of its events (assumed, DESIGN §7.1); real thread interleavings inside the frameworks and wall-clock bounds are sampled by the scenario engine, not proved. Trusted: Lean kernel + standard axioms; the LTS Model/Runtime/LTS.lean (tied by trace acceptance); the scenario engine and its mapping of log entries to model events.'),
+    "C10": ("§7.6",
+            'Lean 4 invariant proofs over one labelled transition system of the MetaRunner/ServiceRunner protocol (induction over arbitrary event sequences: every number of payloads, every interleaving the guards admit) + correspondence by replaying the event logs of gated scenarios run against the real runtime on the model (subset-construction trace acceptor) + outcome oracle',
+            'exec_frame, exec_once, exec_thread, exec_keeps_running are theorems over the runtime LTS; tied to the code by sequences of execute calls from every context with every outcome, compared by identity, with bystanders and a heartbeat; the opposite-direction deadlock is a recorded known finding.',
+            'Partial: the semantics of asyncio, trio and threading enters the LTS as the enabling conditions of its events (assumed, DESIGN §7.1); real thread interleavings inside the frameworks and wall-clock bounds are sampled by the scenario engine, not proved. Trusted: Lean kernel + standard axioms; the LTS Model/Runtime/LTS.lean (tied by trace acceptance); the scenario engine and its mapping of log entries to model events.'),
+    "C11": ("§7.7",
+            'Lean 4 invariant proofs over one labelled transition system of the MetaRunner/ServiceRunner protocol (induction over arbitrary event sequences: every number of payloads, every interleaving the guards admit) + correspondence by replaying the event logs of gated scenarios run against the real runtime on the model (subset-construction trace acceptor) + outcome oracle',
+            "one_thread_per_flavour, threads_apart, executed_same_thread, coroutines_independent_of_threads are theorems over the runtime LTS (plus the model's axiom that a thread executes one thing at a time); tied to the code by thread / loop / token identities, an overlap detector and heartbeat progress while thread payloads block.",
+            'Partial: the semantics of asyncio, trio and threading enters the LTS as the enabling conditions of its events (assumed, DESIGN §7.1); real thread interleavings inside the frameworks and wall-clock bounds are sampled by the scenario engine, not proved. Trusted: Lean kernel + standard axioms; the LTS Model/Runtime/LTS.lean (tied by trace acceptance); the scenario engine and its mapping of log entries to model events.'),
+    "C12": ("§7.8",
+            'Lean 4 invariant proofs over one labelled transition system of the MetaRunner/ServiceRunner protocol (induction over arbitrary event sequences: every number of payloads, every interleaving the guards admit) + correspondence by replaying the event logs of gated scenarios run against the real runtime on the model (subset-construction trace acceptor) + outcome oracle',
+            'guard_mutex, reject_frame, guard_released, restart, shutdown_enabled, shutdown_returns are theorems over the runtime LTS; tied to the code by histories over several ServiceRunner instances (accept, concurrent accept, shutdown from outside or from a thread payload, SIGINT, failing payload, accept again).',
+            'Partial: the semantics of asyncio, trio and threading enters the LTS as the enabling conditions of its events (assumed, DESIGN §7.1); real thread interleavings inside the frameworks and wall-clock bounds are sampled by the scenario engine, not proved. Trusted: Lean kernel + standard axioms; the LTS Model/Runtime/LTS.lean (tied by trace acceptance); the scenario engine and its mapping of log entries to model events.'),
 }
 
 PENDING_REASON = "check not built yet in this session (planned: Lean model + proof + correspondence, see DESIGN.md work order); not claimed until its check exists"
